@@ -265,6 +265,20 @@ impl<'a> B<'a> {
             self.scopes.pop();
             return E::Block(vec![st, v]);
         }
+        if choice == 4 && self.c.chance(1, 2) {
+            // query on a container literal: every member is evaluated, one is selected
+            self.pure += 1;
+            let wanted = self.expr(ty, d1);
+            self.pure -= 1;
+            let t2 = self.any_ty();
+            let other = self.effectful_operand(t2, d1);
+            return if self.c.chance(2, 3) {
+                E::Cont(Box::new(E::Obj(vec![("a".to_string(), wanted), ("b".to_string(), other)])), vec![Seg::F("a".to_string())])
+            } else {
+                // arrays are evaluated left to right
+                E::Cont(Box::new(E::Arr(vec![other, wanted])), vec![Seg::I(1)])
+            };
+        }
         if choice == 3 {
             let vars = self.vars_of(ty);
             if !vars.is_empty() {
